@@ -240,7 +240,8 @@ class RealLoopScenario(Scenario):
         self.r.runUntilCurrent = run_until_current
         # The asyncio reactor's callLater() calls self.timeout(), which moves staged calls into the heap even while
         # runUntilCurrent() is executing; with a clock that does not move during an iteration a callLater(0) issued from
-        # inside a running call then runs in the SAME iteration (known finding C08 not-in-birth-iteration:in-call@asyncio).
+        # inside a running call then runs in the SAME iteration (known finding, not repaired, listed in known_findings.json:
+        # C08:not-in-birth-iteration:in-call@asyncio).
         # In most asyncio runs calls made from inside a running call get a delay > 0 so the other clauses run full length.
         self.avoid_inner_zero = kind == "asyncio" and sim.draw_bool(0.7, "avoid_inner_zero_delay")
 
